@@ -529,4 +529,101 @@ theorem formatSource_confined (w : World) (tok : Nat) (path : List Char) (conten
             · exact confined_read hu
             · exact confined_read hu
 
+/-! ### the tree walkers -/
+
+theorem Under.of_child {d0 d : Path} {name : Name} (h : Under (d0 ++ [name]) d)
+    (hn : isHiddenName name = false) : Under d0 d := by
+  obtain ⟨rel, rfl, hrel⟩ := h
+  refine ⟨name :: rel, by simp, ?_⟩
+  intro c hc
+  simp only [List.mem_cons] at hc
+  rcases hc with rfl | hc
+  · exact hn
+  · exact hrel c hc
+
+/-- `collect_workspace_files` / `collect_workspace_tree` list only directories reached from the
+root through visible names, never through a link (link entries are skipped, not followed). -/
+theorem walkDirs_under (fs : FS) (n : Nat) (d0 : Path) : ∀ d ∈ walkDirs fs n d0, Under d0 d := by
+  induction n generalizing d0 with
+  | zero => simp [walkDirs]
+  | succ n ih =>
+    intro d hd
+    simp only [walkDirs, List.mem_cons, List.mem_flatMap] at hd
+    rcases hd with hd | ⟨⟨name, nd⟩, _, hmem⟩
+    · subst hd; exact Under.refl _
+    · simp only at hmem
+      split at hmem
+      · simp at hmem
+      · rename_i hhid
+        split at hmem
+        · exact (ih _ d hmem).of_child (by simpa using hhid)
+        · simp at hmem
+
+theorem walk_effects_confined (fs : FS) (n : Nat) (cr : Path) :
+    ∀ e ∈ (walkDirs fs n cr).map Effect.list, e.Confined cr := by
+  intro e he
+  simp only [List.mem_map] at he
+  obtain ⟨d, hd, rfl⟩ := he
+  intro x hx
+  simp only [Effect.paths, List.mem_singleton] at hx
+  rw [hx]
+  exact walkDirs_under fs n cr d hd
+
+theorem listSources_confined (w : World) (tok : Nat) :
+    ∀ e ∈ (listSources w tok).effects, e.Confined (canonRoot w.fs w.root) := by
+  unfold listSources withSession
+  split
+  · simp [fail]
+  · dsimp only
+    split
+    · simp [fail]
+    · exact walk_effects_confined _ _ _
+
+theorem listTree_confined (w : World) (tok : Nat) :
+    ∀ e ∈ (listTree w tok).effects, e.Confined (canonRoot w.fs w.root) := by
+  unfold listTree withSession
+  split
+  · simp [fail]
+  · dsimp only
+    split
+    · simp [fail]
+    · exact walk_effects_confined _ _ _
+
+theorem workspaceSearch_confined (w : World) (tok : Nat) (query : List Char) (limit : Nat) :
+    ∀ e ∈ (workspaceSearch w tok query limit).effects, e.Confined (canonRoot w.fs w.root) := by
+  unfold workspaceSearch withSession
+  split
+  · simp [fail]
+  · dsimp only
+    split
+    · simp
+    · split
+      · simp [fail]
+      · intro e he
+        simp only [List.mem_append] at he
+        rcases he with he | he
+        · exact walk_effects_confined _ _ _ e he
+        · simp only [List.mem_filterMap, List.mem_map] at he
+          obtain ⟨⟨p, r⟩, ⟨p', _, hp'⟩, hr⟩ := he
+          simp only [Prod.mk.injEq] at hp'
+          obtain ⟨rfl, hr'⟩ := hp'
+          cases r with
+          | none => simp at hr
+          | some qc =>
+            obtain ⟨q, c⟩ := qc
+            simp only [Option.map_some, Option.some.injEq] at hr
+            subst hr
+            -- the read went through normalise + gate
+            split at hr'
+            · cases hr'
+            · rename_i parts hn
+              split at hr'
+              · cases hr'
+              · rename_i joined hres
+                have hu := (accepted_of hn hres).read hr'
+                intro x hx
+                simp only [Effect.paths, List.mem_singleton] at hx
+                subst hx
+                exact hu
+
 end TrustVerif.C19
